@@ -7,6 +7,7 @@ import (
 	"time"
 
 	"github.com/bmeg/grip/config"
+	"github.com/bmeg/grip/gdbi"
 	"github.com/bmeg/grip/gripper"
 	"github.com/bmeg/grip/gripql"
 	"github.com/bmeg/grip/log"
@@ -50,7 +51,7 @@ func (server *GripServer) getGraph(graph string) (*gripql.Graph, error) {
 }
 
 func (server *GripServer) buildSchemas(ctx context.Context) {
-	for _, gdb := range server.dbs {
+	for _, gdb := range server.graphDBs() {
 		for _, name := range gdb.ListGraphs() {
 			select {
 			case <-ctx.Done():
@@ -60,7 +61,10 @@ func (server *GripServer) buildSchemas(ctx context.Context) {
 				if isSchema(name) {
 					continue
 				}
-				if _, ok := server.schemas[name]; ok {
+				server.lock.RLock()
+				_, ok := server.schemas[name]
+				server.lock.RUnlock()
+				if ok {
 					log.WithFields(log.Fields{"graph": name}).Debug("skipping build; cached schema found")
 					continue
 				}
@@ -72,7 +76,9 @@ func (server *GripServer) buildSchemas(ctx context.Context) {
 					if err != nil {
 						log.WithFields(log.Fields{"graph": name, "error": err}).Error("failed to store graph schema")
 					}
+					server.lock.Lock()
 					server.schemas[name] = schema
+					server.lock.Unlock()
 				} else {
 					log.WithFields(log.Fields{"graph": name, "error": err}).Error("failed to build graph schema")
 				}
@@ -102,12 +108,25 @@ func (server *GripServer) cacheSchemas(ctx context.Context) {
 	}
 }
 
+// graphDBs returns a snapshot of the graph database drivers
+func (server *GripServer) graphDBs() map[string]gdbi.GraphDB {
+	server.lock.RLock()
+	defer server.lock.RUnlock()
+	o := make(map[string]gdbi.GraphDB, len(server.dbs))
+	for k, v := range server.dbs {
+		o[k] = v
+	}
+	return o
+}
+
 func (server *GripServer) updateGraphMap() {
 	o := map[string]string{}
 	for k, v := range server.conf.Graphs {
 		o[k] = v
 	}
-	for n, dbs := range server.dbs {
+	// drivers started for gripper mappings found below
+	newDBs := map[string]gdbi.GraphDB{}
+	for n, dbs := range server.graphDBs() {
 		for _, g := range dbs.ListGraphs() {
 			o[g] = n
 			if strings.HasSuffix(g, "__mapping__") {
@@ -119,7 +138,7 @@ func (server *GripServer) updateGraphMap() {
 					gdb, err := StartDriver(config.DriverConfig{Gripper: &gripper.Config{Graph: graphName, Mapping: mapping}}, server.sources)
 					if err == nil {
 						driverName := fmt.Sprintf("%s__driver__", graphName)
-						server.dbs[driverName] = gdb
+						newDBs[driverName] = gdb
 						o[graphName] = driverName
 					} else {
 						log.Errorf("Failed to start gripper: %s", graphName)
@@ -130,7 +149,12 @@ func (server *GripServer) updateGraphMap() {
 			}
 		}
 	}
+	server.lock.Lock()
+	for k, v := range newDBs {
+		server.dbs[k] = v
+	}
 	server.graphMap = o
+	server.lock.Unlock()
 }
 
 func (server *GripServer) addFullGraph(ctx context.Context, graphName string, schema *gripql.Graph) error {
